@@ -396,10 +396,53 @@ func ruleQ8Q10(c *an.Ctx) {
 	c.Floor("Q9", "loops in the retain formatters", n9, 2)
 	// Q10
 	n10 := 0
+	// the format methods and the free helper functions they call (hasComments(exp) ...)
+	var q10fns []*ssa.Function
+	q10seen := map[*ssa.Function]bool{}
 	for _, fn := range p.FuncsOf(pkgSyntax) {
-		if fn.Name() != "format" || fn.Signature.Recv() == nil {
+		if fn.Name() != "format" || fn.Signature.Recv() == nil || q10seen[fn] {
 			continue
 		}
+		q10seen[fn] = true
+		q10fns = append(q10fns, fn)
+		an.Instrs(fn, func(in ssa.Instruction) {
+			if cl := an.AsCallAny(in); cl != nil {
+				if h := cl.Common().StaticCallee(); h != nil && h.Blocks != nil && h.Pkg == fn.Pkg && h.Signature.Recv() == nil && !q10seen[h] {
+					q10seen[h] = true
+					q10fns = append(q10fns, h)
+				}
+			}
+		})
+	}
+	// accessor: a function every return of which is a load of the given field
+	accessorOf := func(v ssa.Value, fld *types.Var) (ssa.Value, bool) {
+		cl, ok := v.(*ssa.Call)
+		if !ok {
+			return nil, false
+		}
+		g := cl.Call.StaticCallee()
+		if g == nil || g.Blocks == nil || g.Pkg == nil || len(cl.Call.Args) == 0 {
+			return nil, false
+		}
+		all, any := true, false
+		an.Instrs(g, func(x ssa.Instruction) {
+			if ret, isRet := x.(*ssa.Return); isRet && len(ret.Results) == 1 {
+				if an.IsNil(ret.Results[0]) {
+					return
+				}
+				if _, f := an.FieldLoad(an.Strip(ret.Results[0])); f == fld {
+					any = true
+				} else {
+					all = false
+				}
+			}
+		})
+		if all && any {
+			return cl.Call.Args[0], true
+		}
+		return nil, false
+	}
+	for _, fn := range q10fns {
 		var commentBases, scopeBases []string
 		var pos []ssa.Instruction
 		an.Instrs(fn, func(in ssa.Instruction) {
@@ -412,6 +455,13 @@ func ruleQ8Q10(c *an.Ctx) {
 				return
 			}
 			base, f := an.FieldLoad(an.Strip(args[0]))
+			if f == nil {
+				if b, ok := accessorOf(an.Strip(args[0]), comments); ok {
+					base, f = b, comments
+				} else if b, ok := accessorOf(an.Strip(args[0]), scope); ok {
+					base, f = b, scope
+				}
+			}
 			if f == comments {
 				commentBases = append(commentBases, an.StablePath(base))
 				pos = append(pos, in)
